@@ -344,6 +344,30 @@ theorem C16_builder_finish (b : Builder) (rb : RefBuilder) (h : Abs b rb) :
     exact ⟨by rw [labelOffsets_toWire done hinv.ok], hv⟩
   · simp only [hc, ↓reduceIte]; exact ⟨_, rfl⟩
 
+/-- `finish_with_suffix`: the labels so far, the current (non-empty) label and the suffix's labels,
+    if that fits in 255 octets — with a consistent offset table, and without panicking (no `u8`
+    overflow in the offset addition, no `ArrayVec` overflow) -/
+theorem C16_builder_finish_with_suffix (b : Builder) (rb : RefBuilder) (h : Abs b rb) (sfx : DName)
+    (hs : ValidName sfx) :
+    match rb.finishWithSuffix sfx with
+    | .ok n => b.finishWithSuffix (toWire sfx) = .ok ⟨toWire n, labelOffsets (toWire n)⟩ ∧ ValidName n
+    | .error _ => ∃ e, b.finishWithSuffix (toWire sfx) = .err e := by
+  obtain ⟨hinv, rfl⟩ := h
+  obtain ⟨done, cur⟩ := rb
+  rw [finishWithSuffix_stateOf done cur hinv sfx hs]
+  unfold RefBuilder.finishWithSuffix
+  simp only [List.isEmpty_iff]
+  by_cases hc : cur = []
+  · simp only [hc, ↓reduceIte]; exact ⟨_, rfl⟩
+  · have hpos : 0 < cur.length := List.length_pos_iff.mpr hc
+    by_cases hsz : wireLength (done ++ [cur] ++ sfx) > 255
+    · simp only [hc, hsz, ↓reduceIte]; exact ⟨_, rfl⟩
+    · simp only [hc, hsz, ↓reduceIte]
+      have hok : LabelsOK (done ++ [cur] ++ sfx) := by
+        refine LabelsOK_append.mpr ⟨LabelsOK_append.mpr ⟨hinv.ok, ?_⟩, hs.1⟩
+        intro l hl; simp at hl; subst hl; exact ⟨hpos, hinv.cl⟩
+      exact ⟨by rw [labelOffsets_toWire _ hok], hok, by omega⟩
+
 /-- no builder operation panics in any reachable state -/
 theorem C16_builder_no_panic (b : Builder) (rb : RefBuilder) (h : Abs b rb) (o : UInt8) (os : List UInt8) :
     (b.tryPush o).2 ≠ .panic ∧ (b.tryPushSlice os).2 ≠ .panic ∧ b.nextLabel.2 ≠ .panic ∧ b.finish ≠ .panic := by
